@@ -6,6 +6,7 @@ import (
 	"os"
 	"path"
 	"path/filepath"
+	"strconv"
 	"strings"
 	"sync"
 	"sync/atomic"
@@ -310,6 +311,7 @@ func c03Run(c *core.Ctx) *core.Result {
 		}
 	}
 	var unsolicited []hpkt
+	var tmpSeed uint32
 	forceMeta := false
 	hlSrc, hlDst := "", ""
 	var hlSkip []string
@@ -512,6 +514,28 @@ func c03Run(c *core.Ctx) *core.Result {
 		// legal entries whose names look like the writer's temporary names
 		// (guessable if they were a counter or derived from the path): symlinks
 		// to the outside, sorting before the entries that get replaced
+		// ... and the names the writer of this receiver process is going to
+		// use: its generator is pinned through the verification hook (what an
+		// attacker reaches by spraying many names), the first eight names are
+		// planted at the top level and below every announced directory
+		tmpSeed = uint32(R.U64()) | 1
+		var planted []string
+		x := tmpSeed
+		for i := 0; i < 8; i++ {
+			x = x*1664525 + 1013904223
+			planted = append(planted, ".tmp."+strconv.Itoa(int(1e9 + x%1e9))[1:])
+		}
+		dirsOf := []string{""}
+		for _, st := range stats {
+			if os.FileMode(st.Mode).IsDir() {
+				dirsOf = append(dirsOf, st.Path+"/")
+			}
+		}
+		for _, d := range dirsOf {
+			for _, nm := range planted {
+				stats = append(stats, &types.Stat{Path: d + nm, Mode: uint32(os.ModeSymlink | 0777), Linkname: core.Pick(R, []string{outside + "/file", up + rc + "/outside/file", outside + "/dir/a", outside + "/dir/new-name"})})
+			}
+		}
 		for _, nm := range []string{".tmp.0", ".tmp.1", ".tmp.2", ".tmp.000000001", ".tmp.a"} {
 			if R.P(2, 3) {
 				stats = append(stats, &types.Stat{Path: nm, Mode: uint32(os.ModeSymlink | 0777), Linkname: core.Pick(R, []string{outside + "/file", up + rc + "/outside/file", outside + "/dir/a"})})
@@ -596,7 +620,7 @@ func c03Run(c *core.Ctx) *core.Result {
 	}
 	specK, specWhy := hostileSpec(stats)
 	mode := core.Pick(R, []string{"normal", "normal", "merge", "metaonly"})
-	opt := recvProcOpt{Dest: dest}
+	opt := recvProcOpt{Dest: dest, TmpSeed: tmpSeed}
 	switch mode {
 	case "merge":
 		opt.Merge = true
